@@ -213,6 +213,14 @@ impl TypeCollector {
         let mut used_function_names = std::collections::HashSet::new();
         let mut used_type_names = std::collections::HashSet::new();
 
+        // `<Name>Params` is declared next to the project's own types: a struct called
+        // GetUserParams takes that name away from the command get_user
+        for struct_name in self.known_structs.keys() {
+            if let Some(base) = struct_name.strip_suffix("Params") {
+                used_type_names.insert(base.to_string());
+            }
+        }
+
         commands
             .iter()
             .map(|cmd| {
